@@ -129,6 +129,28 @@ Proof.
     + intros u v Hu Hv. rewrite B3 by (apply Hn; assumption). unfold c. apply (rc_idem_adj _ HI).
 Qed.
 
+
+(** ** full ITS vs its centre for an ARBITRARY ITS graph (not only ITSGraph of molecule graphs), explicit_hydrogen either way *)
+Theorem two_routes_centre_any (I : gr) (eh : bool) :
+  gwfb I = true -> all_tgh I = true -> its_ok (get_rc I) = true ->
+  let c := get_rc I in
+  reads_centre c (gml_to_its (its_to_gml I true false eh)) /\ reads_centre c (gml_to_its (its_to_gml c true false eh)).
+Proof.
+  intros Hw Ht Hok c. pose proof (gwfb_alltgh_is_ok I Hw Ht) as HI. pose proof (its_ok_IOK _ Hok) as K. fold c in K.
+  pose proof (centre_hc_free I HI) as Hc. fold c in Hc. split.
+  - rewrite its_core_is_centre_export. exact (centre_roundtrip_any c eh K Hc).
+  - rewrite its_core_is_centre_export.
+    assert (IOK (get_rc c)) as K'.
+    { apply (IOK_transfer c); [exact K|apply get_rc_gwf, rc_is_ok, HI|apply rc_idem_label, HI|apply rc_idem_adj, HI]. }
+    assert (forall n a, label (get_rc c) n = Some a -> cval a <= 0) as Hc'.
+    { intros n a L. apply (Hc n a). unfold c in L. rewrite (rc_idem_label I HI) in L. exact L. }
+    destruct (centre_roundtrip_any (get_rc c) eh K' Hc') as (B1 & B2 & B3). cbv zeta in B1, B2, B3.
+    split; [|split].
+    + intros n. rewrite B1. unfold has_node, c. rewrite (rc_idem_label I HI). reflexivity.
+    + intros n a L. apply B2. unfold c. rewrite (rc_idem_label I HI). exact L.
+    + intros u v. rewrite B3. unfold c. apply (rc_idem_adj I HI).
+Qed.
+
 (** ** rsmi_to_its(explicit_hydrogen=True) keeps the total hydrogen count of the ITS (any graphs at all) *)
 Theorem rsmi_to_its_total_h (r p : gr) (eo : list (N * N)) :
   total_h (rsmi_to_its r p eo false true) = total_h (rsmi_to_its r p eo false false).
@@ -186,3 +208,15 @@ Example graph_to_rsmi_no_H_ex :
   let its := its_construct ex_r ex_p (union_pairs ex_r ex_p) in
   no_H (get_rc its) = true /\ graph_to_rsmi_mols ex_r ex_p its false <> None.
 Proof. vm_compute. split; [reflexivity|discriminate]. Qed.
+
+(** ** KNOWN FINDING smiles_to_graph:use_index_as_atom_map:partial-mapping-id-collision (code kept as it is): with
+    use_index_as_atom_map=True and drop_non_aam=False a mapped atom is numbered by its map number and an unmapped atom by
+    index + 1; on the partially mapped molecule [CH3:2]C both atoms get id 2, the graph has one node with a self-loop and
+    graph_to_mol fails — although the molecule is well formed and its map numbers are distinct; the default flags are fine *)
+Definition ex_partial : rmol := ([RAt (s2l "C") false 3 0 2; RAt (s2l "C") false 3 0 0], [(0%N, 1%N, 2)]).
+Theorem partial_mapping_id_collision_refuted :
+  exists m : rmol, wf_mol m = true /\ nodupb (map fst (numT (fst m))) = true /\
+    List.length (gnodes (mol_to_graph m false true)) = 1%nat /\ List.length (fst m) = 2%nat /\
+    graph_to_mol (mol_to_graph m false true) = None /\
+    List.length (gnodes (mol_to_graph m false false)) = 2%nat /\ graph_to_mol (mol_to_graph m false false) <> None.
+Proof. exists ex_partial. vm_compute. repeat split; discriminate. Qed.
